@@ -230,6 +230,21 @@ theorem joined_limit_wrap_needed :
   ⟨[⟨10, some 1, 0⟩, ⟨11, some 1, 1⟩, ⟨12, some 1, 2⟩, ⟨20, some 2, 0⟩], [⟨1, 0⟩, ⟨2, 0⟩, ⟨3, 0⟩],
     by decide⟩
 
+/-! ## the nest decision -/
+
+/-- `_should_nest_selectable` wraps exactly when the property needs it — as long as the
+    row limit is not given by `fetch()` -/
+theorem should_nest_complete_without_fetch :
+    ∀ (ej mr hl ho di gb : Bool), shouldNest ej mr hl ho false di gb = nestNeeded ej mr hl ho false di gb := by
+  decide
+
+/-- **should_nest_misses_fetch** (finding F23): with `fetch(n)` and no offset the code does
+    not wrap although a multi-row eager join is present; by `joined_limit_wrap_needed` the
+    un-wrapped plan truncates collections. -/
+theorem should_nest_misses_fetch :
+    ∃ (ej mr hl ho hf di gb : Bool), nestNeeded ej mr hl ho hf di gb = true ∧ shouldNest ej mr hl ho hf di gb = false :=
+  ⟨true, true, false, false, true, false, false, by decide, by decide⟩
+
 /-! ## the concrete ORDER BY commutes with WHERE -/
 
 def SortedK (l : List Child) : Prop := l.Pairwise (fun a b => a.k ≤ b.k)
